@@ -5,7 +5,7 @@ The encoder selects sibling encodings by incrementing the table index
 row k is a fact about the table.  Sites are enumerated from the AST with the
 path guard that selects the rows they can fire from; guards are matched
 against a table of confirmed instances (one line of reason each)."""
-from .core import (AnalysisBroken, ConstEval, kids, strip, walk, walk_with_parents, expr_str, loc_str, ref_name,
+from .core import (AnalysisBroken, ConstEval, kids, strip, walk, walk_with_parents, expr_str, loc_str, ref_name, qtype,
                    callee_name, call_args)
 from . import eff as EFF
 from . import tabrules as TR
@@ -521,3 +521,74 @@ def _only(prog, cond, subject, mm, defs):
             return {"<": a < b, ">": a > b, "<=": a <= b, ">=": a >= b, "==": a == b, "!=": a != b}[e["opcode"]]
         return True
     return lambda v: ev(cond, v)
+
+
+# ---- bare-REX rule ------------------------------------------------------------------------------------------------------
+def bare_rex_rule(chk, prog, rule="BAREREX"):
+    """spl/bpl/sil/dil are only addressable with a REX prefix (0x40 without W/R/X/B).  In the function that derives the REX
+    prefix of a ModRM instruction the test `operand >= spl` (8-bit class, not extended) that ORs in the bare prefix must exist
+    for the r/m operand and for the ModRM.reg operand, and the one for the ModRM.reg operand must be reached on every path
+    (the r/m one may be skipped where the size keyword path handles memory operands)."""
+    from .core import walk_with_parents
+    enums = prog.enums
+    if "rex_" not in enums or "spl" not in enums:
+        raise AnalysisBroken("enumerators rex_/spl not found")
+    cands = []
+    for fn, f in prog.lib_functions().items():
+        ops = [p for p in prog.params(f) if "struct operand *" in qtype(p)]
+        if len(ops) < 2:
+            continue
+        sites = []
+        for m, parents in walk_with_parents(prog.body(f)):
+            if m.get("kind") != "IfStmt":
+                continue
+            cond, then = kids(m)[0], kids(m)[1]
+            sets = any(x.get("kind") == "CompoundAssignOperator" and x.get("opcode") == "|=" and
+                       ConstEval(prog).try_eval(kids(x)[1]) == enums["rex_"] for x in walk(then))
+            if not sets:
+                continue
+            subj = None
+            for x in walk(cond):
+                if x.get("kind") == "BinaryOperator" and x.get("opcode") in (">=", ">") and \
+                        ConstEval(prog).try_eval(kids(x)[1]) in (enums["spl"], enums["spl"] - 1):
+                    subj = strip(kids(x)[0], casts=True)
+            if subj is None:
+                continue
+            nested = [p for p in parents if p.get("kind") in ("IfStmt", "SwitchStmt", "WhileStmt", "ForStmt", "ConditionalOperator")]
+            sites.append((m, subj, nested))
+        if sites:
+            cands.append((fn, f, ops, sites))
+    if len(cands) != 1:
+        raise AnalysisBroken("the REX derivation with bare-prefix tests was not identified uniquely: %s" % [c[0] for c in cands])
+    fn, f, ops, sites = cands[0]
+    # which operand does a subject refer to: directly P->reg, or a local initialised from P->reg
+    init = {}
+    for m in walk(prog.body(f)):
+        if m.get("kind") == "VarDecl" and kids(m):
+            init[m["name"]] = expr_str(strip(kids(m)[-1], casts=True))
+    by_op = {}
+    for m, subj, nested in sites:
+        t = expr_str(subj)
+        t = init.get(t, t)
+        for p in ops:
+            if t.startswith(p["name"] + "->"):
+                by_op.setdefault(p["name"], []).append((m, nested))
+    # the ModRM.reg operand: the last struct operand parameter (m, r) - identified as the one whose REG_RB bit selects REX.R
+    regop = None
+    for m in walk(prog.body(f)):
+        if m.get("kind") == "IfStmt":
+            then = kids(m)[1]
+            if any(x.get("kind") == "CompoundAssignOperator" and ConstEval(prog).try_eval(kids(x)[1]) == enums.get("rex_r") for x in walk(then)):
+                for d in walk(kids(m)[0]):
+                    if d.get("kind") == "DeclRefExpr" and ref_name(d) in [p["name"] for p in ops]:
+                        regop = ref_name(d)
+    if regop is None:
+        raise AnalysisBroken("%s: the operand that selects REX.R was not identified" % fn)
+    for p in ops:
+        chk.require(p["name"] in by_op, rule, "%s/%s/%s" % (rule, fn, p["name"]), loc_str(f),
+                    "%s tests operand %s for spl/bpl/sil/dil and ORs in the bare REX prefix" % (fn, p["name"]), "no such test")
+    for m, nested in by_op.get(regop, []):
+        chk.require(not nested, rule, "%s/%s/%s/unconditional" % (rule, fn, regop), loc_str(m),
+                    "the bare-REX test of the ModRM.reg operand %s is reached on every path through %s" % (regop, fn),
+                    "nested in %s" % [loc_str(x) for x in nested])
+    chk.floor("bare-REX tests", sum(len(v) for v in by_op.values()), 2)
